@@ -338,18 +338,22 @@ static int scenario_threads(const char *dir, double seconds)
 		return 3;
 	struct errspec em = { &seg_m, (int)CLOCKBOUND_ERR_SEGMENT_MALFORMED, "malformed-drift", &n_mal };
 	struct errspec ec = { &seg_c, (int)CLOCKBOUND_ERR_CAUSALITY_BREACH, "ahead-of-clock", &n_caus };
-	pthread_t t[6];
+	pthread_t t[9];
 	pthread_create(&t[0], NULL, writer_thread, NULL);
 	pthread_create(&t[1], NULL, keyed_thread, NULL);
 	pthread_create(&t[2], NULL, keyed_thread, NULL);
 	pthread_create(&t[3], NULL, cycle_thread, NULL);
 	pthread_create(&t[4], NULL, error_thread, &em);
 	pthread_create(&t[5], NULL, error_thread, &ec);
+	/* several threads opening and closing at the same time: what one releases another maps */
+	pthread_create(&t[6], NULL, cycle_thread, NULL);
+	pthread_create(&t[7], NULL, cycle_thread, NULL);
+	pthread_create(&t[8], NULL, cycle_thread, NULL);
 	double t0 = real_seconds();
 	while (real_seconds() - t0 < seconds && violations < 12)
 		usleep(20000);
 	stop_all = 1;
-	for (int i = 0; i < 6; i++)
+	for (int i = 0; i < 9; i++)
 		pthread_join(t[i], NULL);
 	printf("MT threads publications=%ld keyed_calls=%ld open_now_close_cycles=%ld malformed_calls=%ld causality_calls=%ld\n", n_pub, n_keyed, n_cycle, n_mal, n_caus);
 	return 0;
